@@ -50,6 +50,8 @@ pub struct RunSpec<T: Sc> {
     pub post_jac: bool,
     /// fit a second time, starting from the problem the first fit handed back
     pub refit: bool,
+    /// singular value threshold supplied by the caller (None: the default)
+    pub eps: Option<T>,
 }
 
 pub fn fam_shape(fam: &str) -> (usize, usize) {
@@ -67,8 +69,8 @@ pub fn make_problem<T: Sc>(rs: &RunSpec<T>, start: &[T], log: Option<SharedLog>)
         ($model:expr) => {{
             let m = $model;
             match log {
-                Some(l) => build_problem(Rec::new(m, l), rs.mrhs, rs.par, &rs.y, w, None),
-                None => build_problem(m, rs.mrhs, rs.par, &rs.y, w, None),
+                Some(l) => build_problem(Rec::new(m, l), rs.mrhs, rs.par, &rs.y, w, rs.eps),
+                None => build_problem(m, rs.mrhs, rs.par, &rs.y, w, rs.eps),
             }
             .map_err(|e| format!("{e:?}"))
         }};
@@ -207,7 +209,13 @@ pub fn record_run<T: Sc>(rs: &RunSpec<T>) -> RunOut {
                 panicked = true;
                 break;
             }
-            Ok(None) => items.push(Item::Marker("CSetEnd".into(), json!({}), Some(snap(prob.as_ref())))),
+            Ok(None) => {
+                let req: Vec<u64> = match op {
+                    COp::Set(a) => bits_of(a),
+                    COp::Jac => vec![],
+                };
+                items.push(Item::Marker("CSetEnd".into(), json!({"req_bits": req}), Some(snap(prob.as_ref()))))
+            }
             Ok(Some((present, fresh))) => items.push(Item::Marker("CJacEnd".into(), json!({"present": present, "fresh": fresh}), None)),
         }
     }
@@ -265,6 +273,7 @@ pub fn record_run<T: Sc>(rs: &RunSpec<T>) -> RunOut {
             "N": n, "M": m,
             "certified": false, "noworse": true, "orth": true, "reproduces": true,
         });
+        fields["coherent"] = json!(coherent(rs, &fo));
         let name = if let Some(s) = sok {
             fields["sok"] = json!(s);
             "StatsEnd"
@@ -320,6 +329,62 @@ pub fn record_run<T: Sc>(rs: &RunSpec<T>) -> RunOut {
     }
     let calls = log.lock().unwrap().calls;
     finish_items(rs, items, calls, panicked, termination, fit_ok)
+}
+
+/// the model matrix Phi(alpha) computed by the harness' own hand-written model (independent of the problem)
+fn model_matrix<T: Sc>(rs: &RunSpec<T>, params: &[T]) -> Option<DMatrix<T>> {
+    use varpro::model::SeparableNonlinearModel;
+    let r = catch_unwind(AssertUnwindSafe(|| {
+        if poly_is_family(&rs.fam) {
+            PolyModel::new(&rs.fam, &rs.x, params).eval().ok()
+        } else {
+            ExpModel::new(&rs.fam, &rs.x, params).eval().ok()
+        }
+    }));
+    r.ok().flatten().map(|m| DMatrix::from_fn(m.nrows(), m.ncols(), |i, j| m[(i, j)]))
+}
+
+/// C04 / C02: what a fit hands back belongs together - residuals = W(Y - Phi(alpha) C) for the returned
+/// alpha and C (recomputed here from the harness' own model), reported objective = |residuals|^2 / 2.
+/// True when nothing is exposed or the values are not finite (judged elsewhere).
+fn coherent<T: Sc>(rs: &RunSpec<T>, fo: &FitOut<T>) -> bool {
+    let (Some(c), Some(r)) = (fo.fin.coeffs.as_ref(), fo.fin.residuals.as_ref()) else {
+        return true;
+    };
+    let Some(phi) = model_matrix(rs, &fo.fin.params) else {
+        return true;
+    };
+    let (n, s) = (rs.y.nrows(), rs.y.ncols());
+    if phi.nrows() != n || phi.ncols() != c.nrows() || c.ncols() != s || r.len() != n * s {
+        return false;
+    }
+    let tol = if T::NAME == "f64" { 1e-8 } else { 2e-3 };
+    let mut scale = 0.0f64;
+    let mut worst = 0.0f64;
+    let mut sumsq = 0.0f64;
+    for q in 0..s {
+        for i in 0..n {
+            let wi = rs.w.as_ref().map(|w| w[i].to64()).unwrap_or(1.0);
+            let mut fit = 0.0f64;
+            let mut mag = (wi * rs.y[(i, q)].to64()).abs();
+            for j in 0..phi.ncols() {
+                let t = phi[(i, j)].to64() * c[(j, q)].to64();
+                fit += t;
+                mag = mag.max((wi * t).abs());
+            }
+            let e = wi * (rs.y[(i, q)].to64() - fit);
+            let g = r[q * n + i].to64();
+            if !e.is_finite() || !g.is_finite() {
+                return true;
+            }
+            scale = scale.max(mag);
+            worst = worst.max((g - e).abs());
+            sumsq += g * g;
+        }
+    }
+    let obj = fo.objective.to64();
+    let obj_ok = !obj.is_finite() || (obj - 0.5 * sumsq).abs() <= tol * (0.5 * sumsq).max(scale * scale * tol);
+    worst <= tol * scale.max(1e-300) && obj_ok
 }
 
 /// numerical facts of C05 for certified instances: (no worse than truth, residual orthogonal to
@@ -406,7 +471,17 @@ fn finish_items<T: Sc>(rs: &RunSpec<T>, items: Vec<Item<T>>, calls: usize, panic
     };
     // first pass: assign aids
     let mut ev_aids: Vec<Option<usize>> = Vec::new();
+    // the parameters a caller asked for in an update (markers carrying "req_bits")
+    let mut req_aids: Vec<Option<usize>> = Vec::new();
     for it in items.iter() {
+        let mut req = None;
+        if let Item::Marker(_, f, _) = it {
+            if let Some(rb) = f.get("req_bits").and_then(|v| v.as_array()) {
+                let bits: Vec<u64> = rb.iter().filter_map(|v| v.as_u64()).collect();
+                req = Some(aid_of(&bits, None, &mut vecs));
+            }
+        }
+        req_aids.push(req);
         match it {
             Item::Model(e) => ev_aids.push(Some(aid_of(&e.pbits, None, &mut vecs))),
             Item::Marker(_, _, Some(s)) => ev_aids.push(Some(aid_of(&bits_of(&s.params), Some(&s.params), &mut vecs))),
@@ -467,7 +542,7 @@ fn finish_items<T: Sc>(rs: &RunSpec<T>, items: Vec<Item<T>>, calls: usize, panic
         }
     };
     let mut out = Vec::new();
-    for (it, aid) in items.iter().zip(ev_aids.iter()) {
+    for ((it, aid), req) in items.iter().zip(ev_aids.iter()).zip(req_aids.iter()) {
         match it {
             Item::Model(e) => {
                 if e.begin {
@@ -496,6 +571,11 @@ fn finish_items<T: Sc>(rs: &RunSpec<T>, items: Vec<Item<T>>, calls: usize, panic
                 }
                 // floats cannot be read by TLC's Json module: drop them
                 if let Some(o) = v.as_object_mut() {
+                    if o.remove("req_bits").is_some() {
+                        if let Some(r) = req {
+                            o.insert("req".into(), json!(r));
+                        }
+                    }
                     o.remove("objective");
                     o.remove("label");
                     o.remove("err");
@@ -645,6 +725,8 @@ fn poly_run<T: Sc>(i: usize, rng: &mut StdRng) -> RunSpec<T> {
         threads: [1, 2, 4, 16][i % 4],
         post_jac: i % 2 == 0,
         refit: i % 3 == 1,
+        // a regularising threshold: the truncated solve is active along the fit
+        eps: if i % 7 == 3 { Some(T::of64([0.3, 2.0][(i / 7) % 2])) } else { None },
     }
 }
 
@@ -695,6 +777,7 @@ fn exp_run<T: Sc>(i: usize, near: bool, rng: &mut StdRng) -> RunSpec<T> {
         threads: [1, 3, 8][i % 3],
         post_jac: !near && i % 2 == 1,
         refit: !near && i % 4 == 2,
+        eps: None,
     }
 }
 
